@@ -609,6 +609,8 @@ package router
 //@   ensures [C10:unknown-domain-set-rejected] len(cfg.Domain) > 0 && (!has(r.domainSets, cfg.Domain) || r.domainSets[cfg.Domain] == nil) ==> err != nil
 //@   ensures [C10:unknown-upstream-rejected] len(cfg.Forward) > 0 && (!has(r.upstreams, cfg.Forward) || r.upstreams[cfg.Forward] == nil) ==> err != nil
 //@   ensures err != nil ==> ru == nil
+// (the rcode of a DNS header has 4 bits; a larger number would be ORed into the other flag bits of every answer)
+//@   ensures [C10,C03:reject-rcode-fits-the-header] cfg.Reject > 15 ==> err != nil
 //@   ensures [C10:rule-mirrors-config] err == nil ==> ru != nil && fresh(ru) && ru.reject == cfg.Reject
 //@             && (len(cfg.Domain) > 0 ? ru.matcher == r.domainSets[cfg.Domain] && ru.reverse == cfg.Reverse : ru.matcher == nil && !ru.reverse)
 //@             && (len(cfg.Forward) > 0 ? ru.upstream == r.upstreams[cfg.Forward] : ru.upstream == nil)
